@@ -167,7 +167,7 @@ impl StateMachine<'_> {
                 &[(0, 0)],
                 None,
                 &mut self.painter,
-                &self.line,
+                "",
                 &grep_line.path,
                 self.config.ripgrep_header_style.decoration_style,
                 &self.config.grep_file_style,
